@@ -232,3 +232,74 @@ Example C15_ex_anonymous :
   bind_run false [] [RBindAck [0; 2] 3 None; RFault] [0; 1]
   = (Ok [0; 2], {| trace := [SBind 0 None [0; 1]]; steps := []; sign := false; server := [RFault] |}).
 Proof. vm_compute. reflexivity. Qed.
+
+(* ---- flows: the functions of the source themselves, regenerated as syntax on every run (gen/F_client.v) and run in the world
+   Flow/World_client_hs.v (a ContextElement is its id, an ack is Handshake.reply's triple, a Bind/AlterContext PDU is Handshake.sent,
+   the client is Handshake.st plus the provider's remaining legs), ARE the model functions the theorems above are about.
+   run_self (Proofs/FlowClientLib.v) = PyAst.run that also reports the final value of the local "self". ---- *)
+From V Require Import Prelude.PyAst Prelude.PyWorld gen.F_client Flow.World_client_hs Proofs.FlowClientLib Proofs.Flow_client_hs.
+
+Theorem C15_flow_process_bind_result : forall fuel requested a results flags tok desired,
+  run WH fuel k_flow_process_bind_result [VL (map ctxv requested); VO (OAck a results flags tok); VI desired]
+  = (let* _ := process_bind_result requested results desired in Ok VN).
+Proof. exact flow_process_bind_result. Qed.
+Print Assumptions C15_flow_process_bind_result.
+
+(* _create_bind: the PDU (flags before FIRST|LAST, token, contexts) and self._sign_header afterwards *)
+Theorem C15_flow_create_bind : forall fuel c ids tok,
+  run_self WH fuel k_flow_create_bind [VO (OSelf c); VL (map ctxv ids); trailerv tok]
+  = Ok (VO (OSent (fst (create_bind_hs ids tok (cn_st c)))), Some (VO (OSelf (with_st c (snd (create_bind_hs ids tok (cn_st c))))))).
+Proof. exact flow_create_bind. Qed.
+Print Assumptions C15_flow_create_bind.
+
+Theorem C15_flow_create_alter_context : forall fuel c ids t,
+  run_self WH fuel k_flow_create_alter_context [VO (OSelf c); VL (map ctxv ids); VO (OTrailer t)]
+  = Ok (VO (OSent (create_alter_hs ids t (cn_st c))), Some (VO (OSelf c))).
+Proof. exact flow_create_alter_context. Qed.
+Print Assumptions C15_flow_create_alter_context.
+
+Theorem C15_flow_process_bind_ack : forall fuel c a rs fl tk ids,
+  run_self WH fuel k_flow_process_bind_ack [VO (OSelf c); VO (OAck a rs fl tk); VL (map ctxv ids)]
+  = match process_bind_ack rs fl tk ids (cn_st c) with
+    | (Ok (acc, tk'), s') => Ok (VT [VL (map ctxv acc); tokv tk'], Some (VO (OSelf (with_st c s'))))
+    | (Raise e, _) => Raise e
+    end.
+Proof. exact flow_process_bind_ack. Qed.
+Print Assumptions C15_flow_process_bind_ack.
+
+(* AsyncRpcClient.bind is Handshake.bind_run, for every provider script and every server script: same error or same result vector,
+   and on an authenticated success the client's state (PDUs sent, step arguments, sign flag, replies left) is the model's.
+   fuel: one iteration of the `while` per leg after the first. *)
+Theorem C15_flow_async_bind : forall fuel auth (legs : list leg) srv ids,
+  (List.length legs <= fuel)%nat ->
+  match bind_run auth legs srv ids with
+  | (Ok rs, s) => exists fl tk o,
+      run_self WH fuel k_flow_async_bind [VO (OSelf (conn0 auth legs srv)); VL (map ctxv ids)] = Ok (VO (OAck false rs fl tk), o)
+      /\ (auth = true -> exists c', o = Some (VO (OSelf c')) /\ cn_st c' = s)
+  | (Raise e, _) => run_self WH fuel k_flow_async_bind [VO (OSelf (conn0 auth legs srv)); VL (map ctxv ids)] = Raise e
+  end.
+Proof. exact flow_async_bind. Qed.
+Print Assumptions C15_flow_async_bind.
+Theorem C15_flow_async_bind_run : forall fuel auth (legs : list leg) srv ids,
+  (List.length legs <= fuel)%nat ->
+  (let* v := run WH fuel k_flow_async_bind [VO (OSelf (conn0 auth legs srv)); VL (map ctxv ids)] in Ok (ack_results v))
+  = fst (bind_run auth legs srv ids).
+Proof. exact flow_async_bind_run. Qed.
+Print Assumptions C15_flow_async_bind_run.
+
+(* SyncRpcClient.bind is AsyncRpcClient.bind with every `await self._wrap_sync(a.m, args..)` replaced by `a.m(args..)`, and nothing else
+   (theorem about the two regenerated terms; strengthens the twin kernel of C15_sync_async_same_source) *)
+Theorem C15_flow_bind_twin :
+  pf_params k_flow_sync_bind = pf_params k_flow_async_bind /\
+  pf_body k_flow_sync_bind = map unwrap_sync_stmt (pf_body k_flow_async_bind).
+Proof. exact flow_bind_twin. Qed.
+Print Assumptions C15_flow_bind_twin.
+
+Example C15_flow_bind_example :
+  run_self WH 3 k_flow_async_bind [VO (OSelf (conn0 true [lg T1 false; lg T2 false; lg T3 true]
+      [RBindAck [0; 2] 7 (Some S1); RAlterResp [0] 7 (Some S2); RAlterResp [0] 7 None])); VL (map ctxv [0; 1])]
+  = Ok (VO (OAck false [0; 2] 7 (Some S1)),
+        Some (VO (OSelf {| cn_auth := true; cn_legs := []; cn_complete := true;
+                           cn_st := {| trace := [SBind 4 (Some T1) [0; 1]; SAlter 4 T2 [0]; SAlter 4 T3 [0]];
+                                       steps := [None; Some S1; Some S2]; sign := true; server := [] |} |}))).
+Proof. vm_compute. reflexivity. Qed.
